@@ -305,6 +305,10 @@ def build(prop, tier):
         ensure_makefile()
         cone = cone_of(prop.coq_props)
         br.cone = cone
+        # every module the generated case files import must be part of the cone that is rebuilt and scanned (else a stale .vo could be evaluated)
+        outside = [m for m in prop.model_imports if m.startswith("Verif.") and m[len("Verif."):].replace(".", "/") + ".v" not in cone]
+        if outside:
+            br.ok = False; br.failed = "model_imports outside the dependency cone of %s: %s" % (prop.coq_props, ", ".join(outside)); return br
         bad = scan_forbidden(cone)
         if bad:
             br.ok = False; br.failed = "forbidden construct in development: " + "; ".join(bad[:5]); return br
